@@ -950,6 +950,52 @@ impl CloneIndependence {
                 return Err(format!("{op:?} behaves differently on a clone ({r1:?}, {:?}) and on its source ({r2:?}, {:?})", cl.snap(), src2.snap()));
             }
         }
+        // a clone of a queue with a different capacity history (excess capacity on the source, or
+        // on the clone) still behaves identically: equality, and every append of a clashing
+        // shorter / longer queue, where the side that is drained may not depend on capacities
+        let mut appends: Vec<Op> = vec![];
+        for &k in &self.universe {
+            appends.push(Op::Append(vec![(k, 0, self.prios[0])]));
+            appends.push(Op::Append(vec![(k, 0, *self.prios.last().unwrap())]));
+        }
+        let extra_key = self.universe.iter().max().copied().unwrap_or(0) + 1;
+        for &p in [self.prios[0], *self.prios.last().unwrap()].iter() {
+            let mut big: Vec<Pair> = self.universe.iter().map(|&k| (k, 0, p)).collect();
+            big.extend((0..3).map(|i| (extra_key + i, 0, p)));
+            appends.push(Op::Append(big));
+        }
+        for roomy_source in [true, false] {
+            for op in &appends {
+                cases += 1;
+                let mut src = q.clone();
+                let mut cl;
+                if roomy_source {
+                    src.q_reserve(64);
+                    cl = src.clone();
+                } else {
+                    cl = src.clone();
+                    cl.q_reserve(64);
+                }
+                if !src.q_eq(&cl) || !cl.q_eq(&src) || src.q_ne(&cl) {
+                    return Err("a clone with a different capacity does not compare equal to its source".into());
+                }
+                let (mut m1, mut m2) = (m.clone(), m.clone());
+                let mut un = false;
+                let r1 = step(&mut src, op, &mut m1, &mut un).map_err(|e| format!("{op:?}: {e}"))?;
+                let r2 = step(&mut cl, op, &mut m2, &mut un).map_err(|e| format!("{op:?} on a clone: {e}"))?;
+                if r1 != r2 || cl.snap() != src.snap() {
+                    return Err(format!(
+                        "{op:?} behaves differently on a clone ({r2:?}, {:?}) and on its source ({r1:?}, {:?}) when the {} has excess capacity",
+                        cl.snap(),
+                        src.snap(),
+                        if roomy_source { "source" } else { "clone" }
+                    ));
+                }
+                if !src.q_eq(&cl) {
+                    return Err(format!("after {op:?} a clone and its source (different capacities) are no longer equal"));
+                }
+            }
+        }
         Ok(cases)
     }
 }
